@@ -47,6 +47,38 @@ DEDUP_PATTERNS = ["SimplifyRedundantSetupCalls", "PullSetupOpsOutOfLoops", "Merg
                   "HoistSetupCallsIntoConditionals"]
 
 
+class PassTimeout(Exception):
+    pass
+
+
+class _Watchdog:
+    """Bound the run time of the real passes on one small module (a rewrite loop that never reaches a
+    fixpoint is reported as a crash of the pass)."""
+
+    def __init__(self, seconds=20):
+        self.seconds = seconds
+
+    def __enter__(self):
+        import signal
+
+        def handler(signum, frame):
+            raise PassTimeout(f"real pass did not finish within {self.seconds}s")
+        try:
+            self.old = signal.signal(signal.SIGALRM, handler)
+            signal.setitimer(signal.ITIMER_REAL, self.seconds)
+            self.armed = True
+        except ValueError:      # not in the main thread
+            self.armed = False
+        return self
+
+    def __exit__(self, *a):
+        import signal
+        if self.armed:
+            signal.setitimer(signal.ITIMER_REAL, 0)
+            signal.signal(signal.SIGALRM, self.old)
+        return False
+
+
 class Staged:
     """One generated module through the real pipeline."""
 
@@ -59,19 +91,20 @@ class Staged:
         self.table = None
         self.steps = []
         try:
-            mod = accir.parse(text)
-            self.names.preseed(mod)
-            self.before = accir.convert_module(mod, self.names)[fn]
-            accir.trace_states(mod)
-            self.traced = accir.convert_module(mod, self.names)[fn]
-            self.table = real_table(mod, self.names, fn)
-            self.traced_text = accir.print_module(mod)
-            if want_steps:
-                self.steps = record_dedup(mod, self.names, fn, hoist)
-            else:
-                accir.dedup(mod, hoist)
-            self.after = accir.convert_module(mod, self.names)[fn]
-            self.after_text = accir.print_module(mod)
+            with _Watchdog(20):
+                mod = accir.parse(text)
+                self.names.preseed(mod)
+                self.before = accir.convert_module(mod, self.names)[fn]
+                accir.trace_states(mod)
+                self.traced = accir.convert_module(mod, self.names)[fn]
+                self.table = real_table(mod, self.names, fn)
+                self.traced_text = accir.print_module(mod)
+                if want_steps:
+                    self.steps = record_dedup(mod, self.names, fn, hoist)
+                else:
+                    accir.dedup(mod, hoist)
+                self.after = accir.convert_module(mod, self.names)[fn]
+                self.after_text = accir.print_module(mod)
         except accir.Unsupported as e:
             self.error = ("unsupported", repr(e))
         except Exception as e:  # a crash of the real pass on lowering-form input
